@@ -22,7 +22,12 @@ for d in sorted(glob.glob(os.path.join(V, "seeded", "*"))):
         now.append("%s (%s)" % (pid, rule) if rule else pid)
     if m.get("note_not_applicable"):
         now = [m["note_not_applicable"]]
-    rows.append("| %s | %s | %s | %s |" % (m["id"], (m.get("summary") or "").replace("|", "/"), first, ", ".join(now) or "**none**"))
+    summ = (m.get("summary") or "").replace("|", "/")
+    if m.get("twin") in ("silent", "alarms"):
+        # round 4: the same rewrite with the break removed (`seedfix-<id>`): accepted silently, or still alarming (then the report above is
+        # not specific to the break)
+        summ += " — *repaired twin: %s*" % ("accepted" if m["twin"] == "silent" else "also alarms")
+    rows.append("| %s | %s | %s | %s |" % (m["id"], summ, first, ", ".join(now) or "**none**"))
 p = os.path.join(V, "DESIGN.md")
 s = open(p).read()
 head = "| id | change (written by an independent sub-agent for the property in its name) | reported at intake by | reported now by (rule) |\n|---|---|---|---|\n"
@@ -40,5 +45,5 @@ s = s[:a] + "\n".join(rows) + "\n" + s[b:]
 open(p, "w").write(s)
 def cnt(tag, missed=False):
     return sum(1 for r in rows if tag in r.split("|")[1] and (not missed or "**missed**" in r))
-print("rows: %d; round 1: %d (missed at intake %d); round 2: %d (missed %d); round 3: %d (missed %d); not reported now: %d" % (
-    len(rows), cnt("-s"), cnt("-s", True), cnt("-t"), cnt("-t", True), cnt("-u"), cnt("-u", True), sum(1 for r in rows if "**none**" in r)))
+print("rows: %d; round 1: %d (missed at intake %d); round 2: %d (missed %d); round 3: %d (missed %d); round 4: %d (missed %d); not reported now: %d" % (
+    len(rows), cnt("-s"), cnt("-s", True), cnt("-t"), cnt("-t", True), cnt("-u"), cnt("-u", True), cnt("-v"), cnt("-v", True), sum(1 for r in rows if "**none**" in r)))
